@@ -1,5 +1,5 @@
 """C16 — Every job runs exactly once within the lane limit; every process accounted for (structural part)."""
-from sa.facts import AnalysisBroken, expr_str, qmatch, strip_casts, relpath, core
+from sa.facts import AnalysisBroken, expr_str, qmatch, strip_casts, relpath, core, expr_plain
 from sa import cfg
 from sa.cfg import BranchFacts
 from sa.flow import arg_nodes, mentions
@@ -297,8 +297,10 @@ def run(ctx):
     ok = len(sets) == 1 and "readyJobsMutex" in (lsd.held_at_node(sets[0]) or set()) and bool(nots) and bool(joins)
     if ok:
         # join loop bound is numLanes, the same bound the constructor uses to create the threads
-        loops = [n for n in g.nodes if n.get("k") == "for" and any(x is joins[0] for x in n.walk())]
-        ok = bool(loops) and "numLanes" in expr_str(loops[0].child("c"))
+        loops = [n for n in g.nodes if n.get("k") in ("for", "forrange") and any(x is joins[0] for x in n.walk())]
+        # every lane is joined: an index loop up to numLanes, or a range-for over the vector the constructor filled with numLanes threads
+        ok = bool(loops) and (("numLanes" in expr_str(loops[0].child("c"))) if loops[0].get("k") == "for" else expr_plain(loops[0].child("range")).replace("this->", "") == "lanes") and \
+            not any(x.get("k") in ("break", "return", "continue") for x in loops[0].child("body").walk())
         ctor = [m for m in prog.functions.values() if m.raw.get("ctor") and qmatch(m.cls, "LaneBasedExecutionQueue")]
         cl = [n for m in ctor for n in m.nodes if n.get("k") == "for" and "numLanes" in expr_str(n.child("c"))]
         ok = ok and bool(cl)
@@ -363,12 +365,36 @@ def run(ctx):
                                     "spawn failure -> Failed; cancelled before spawn -> Cancelled", floor=3)
     g = prog.fn("cleanUpExecutedProcess")
     # the status expression is a conditional chain over exitCode
-    decl = [v for n in g.nodes if n.get("k") == "decl" for v in n["vars"] if v["n"] == "processStatus" and "init" in v]
-    if len(decl) != 1:
-        raise AnalysisBroken("cleanUpExecutedProcess: processStatus initialiser not found")
-    init = g.nodes[decl[0]["init"]]
-    txt = expr_str(init)
-    table = decode_status(init)
+    decl = [v for n in g.nodes if n.get("k") == "decl" for v in n["vars"] if v["n"] == "processStatus" and "init" in v and
+            core(g.nodes[v["init"]]) is not None and core(g.nodes[v["init"]]).get("k") == "cond"]
+    if len(decl) == 1:
+        init = g.nodes[decl[0]["init"]]
+        txt = expr_str(init)
+        table = decode_status(init)
+    else:
+        # the same selection written as an if / else-if / else chain of assignments
+        asg = [n for n in g.nodes if n.get("k") == "bin" and n["op"] == "=" and expr_plain(n.child("l")) == "processStatus"]
+        if not asg:
+            raise AnalysisBroken("cleanUpExecutedProcess: processStatus selection not found")
+        arms, other = [], None
+        for a in asg:
+            guards = []
+            cur = a
+            for anc in g.ancestors(a):
+                if anc.get("k") == "if":
+                    in_then = any(x is cur or x is a for x in anc.child("then").walk())
+                    guards.append((anc.child("c"), in_then))
+            guards.reverse()
+            val = expr_str(core(a.child("r"))).split("::")[-1]
+            if guards and all(not p for _c, p in guards):
+                other = val
+            elif guards and guards[-1][1] and all(not p for _c, p in guards[:-1]):
+                arms.append((core(guards[-1][0]), val))
+            else:
+                arms.append((None, val))
+        init = asg[0]
+        txt = "; ".join(expr_str(a) for a in asg)
+        table = decode_status_arms(g, arms, other) if other is not None and all(c is not None for c, _v in arms) else None
     want = {"cancelled": {"SIGINT", "SIGKILL"}}
     r.check(table is not None and table["zero"] == "Succeeded" and table["cancel_sigs"] == {2, 9} and table["else"] == "Failed",
             "cleanUpExecutedProcess|status-table", "%s" % table, "status mapping is %s (from %s)" % (table, txt[:120]), g, init)
@@ -402,7 +428,11 @@ def decode_status(init):
         n = core(n.child("b"))
     if n is None or not arms:
         return None
-    out["else"] = expr_str(n).split("::")[-1]
+    return decode_status_arms(fn, arms, expr_str(n).split("::")[-1])
+
+
+def decode_status_arms(fn, arms, other):
+    out = {"zero": None, "cancel_sigs": set(), "else": other}
 
     def resolve(c):
         c = core(c)
